@@ -341,7 +341,8 @@ func run(c Case) engine.Result {
 		} else if x.Vector != want && !tr.Deadlock {
 			add("plugin|lost-diagnostic", fmt.Sprintf("plugins %v returned [%s] but the linter reports [%s]; schedule %s", c.Plugins, want, x.Vector, sched.Describe(tr)), prefix, tr)
 		}
-		return len(res.Findings) < 8
+		// a scenario is explored until its first violating execution (all findings of that execution are kept)
+		return len(res.Findings) == 0
 	}
 	if os.Getenv("VERIF_C18_DEBUG") != "" {
 		var x execOut
@@ -403,7 +404,15 @@ func run(c Case) engine.Result {
 	return res
 }
 
-func maxExec() int64 { return 400000 }
+// maxExec caps the executions of one scenario (a capped scenario is reported as not exhaustive, never as held)
+func maxExec() int64 {
+	if os.Getenv("VERIF_TIER") == "thorough" || curTier == "thorough" {
+		return 400000
+	}
+	return 6000
+}
+
+var curTier string
 
 // per-worker statistics, written next to the worker output and merged by Finish
 type stat struct {
@@ -609,7 +618,8 @@ func init() {
 			return c.Kind + "\x00" + strings.Join(c.Requests, ",") + "\x00" + strings.Join(c.Plugins, ",") + fmt.Sprint(c.Bound, c.Schedule)
 		},
 		Run: func(c Case) engine.Result { return engine.SafeRun(func() engine.Result { return run(c) }) },
-		Init: func(string) {
+		Init: func(tier string) {
+			curTier = tier
 			sim.InstallStub()
 			if d := os.Getenv("VERIF_PLUGIN_DIR"); d != "" {
 				os.Setenv("PATH", d+":"+os.Getenv("PATH"))
